@@ -291,3 +291,115 @@ def check_reserve(tier="quick", seed=0, repo="/repo"):
             pass
     res["seconds"] = round(time.time() - t0, 2)
     return res
+
+
+# ---------------------------------------------------------------------------------------------------------
+# Parser.add_fields: "every definition - also one that reuses another definition's field list - goes through the layout pass"
+#   (L1) every normal exit of add_fields is preceded by self.validate_msg_def(<the definition>), which runs check_alignment (C11 contract) and the size limit.
+# Decided by a path analysis over the structured statements of the one function; replayed on the real parser.
+LAYOUT_REPLAY = r'''
+import os, sys, pathlib, tempfile, shutil, logging
+sys.path.insert(0, os.path.join(sys.argv[1], "src"))
+logging.disable(logging.CRITICAL)
+from pyrtma.parser import Parser
+tmp = tempfile.mkdtemp(prefix="c11r_")
+try:
+    f = pathlib.Path(tmp) / "d.yaml"
+    f.write_text("struct_defs:\n  PAIR2:\n    fields:\n      a: int16\n      b: int16\n  COPY2:\n    fields: PAIR2\n"
+                 "message_defs:\n  HOLD:\n    id: 7100\n    fields:\n      tag: int16\n      p: COPY2\n")
+    p = Parser(auto_pad=False, import_coredefs=False)
+    try:
+        p.parse(f)
+        c, h = p.struct_defs["COPY2"], p.message_defs["HOLD"]
+        if c.alignment != 2 or h.size != 6:
+            print(f"C11-REPLAY-VIOLATION: COPY2 (field list of PAIR2: two int16) has alignment {c.alignment} (expected 2); HOLD is {h.size} bytes (expected 6)")
+    except Exception as ex:
+        print("C11-REPLAY-VIOLATION: a definition that needs no padding (int16 tag + a struct of two int16 defined by field-list reuse) is rejected:", type(ex).__name__, str(ex)[:120].replace("\n", " "))
+finally:
+    shutil.rmtree(tmp, ignore_errors=True)
+'''
+
+
+def _exits_without(stmts, is_call):
+    """(can fall through the block without the call, can leave the function normally (return) without the call) - over-approximation"""
+    fall = True       # a path reaches this point without the call
+    ret = False
+    for st in stmts:
+        if not fall:
+            break
+        if isinstance(st, ast.Return):
+            return False, True
+        if isinstance(st, ast.Raise):
+            return False, ret
+        if isinstance(st, ast.Expr) and is_call(st.value):
+            return False, ret
+        if isinstance(st, ast.If):
+            f1, r1 = _exits_without(st.body, is_call)
+            f2, r2 = _exits_without(st.orelse, is_call) if st.orelse else (True, False)
+            ret = ret or r1 or r2
+            fall = f1 or f2
+        elif isinstance(st, (ast.For, ast.While)):
+            f1, r1 = _exits_without(st.body, is_call)
+            ret = ret or r1
+            fall = True        # zero iterations
+        elif isinstance(st, ast.With):
+            f1, r1 = _exits_without(st.body, is_call)
+            ret, fall = ret or r1, f1
+        elif isinstance(st, ast.Try):
+            f1, r1 = _exits_without(st.body + st.orelse, is_call)
+            fr = [f1]
+            ret = ret or r1
+            for h in st.handlers:
+                fh, rh = _exits_without(h.body, is_call)
+                fr.append(fh)
+                ret = ret or rh
+            fall = any(fr)
+            if st.finalbody:
+                ff, rf = _exits_without(st.finalbody, is_call)
+                ret = ret or rf
+                fall = fall and ff
+    return fall, ret
+
+
+def check_layout_pass(tier="quick", seed=0, repo="/repo"):
+    t0 = time.time()
+    res = dict(obligations=0, discharged=0, open={}, discharged_names=[], samples=[], by_backend={}, seconds=0.0, crashes=[], undecided=[], bounded=[],
+               assumptions=["Parser.add_fields is not under an SMT contract; that every definition it fills (field-list reuse included) reaches validate_msg_def - and with it the verified "
+                            "check_alignment - is decided by a path analysis of the one function"])
+    name = "C11/add_fields/every-definition-goes-through-the-layout-pass"
+    res["obligations"] = 1
+    try:
+        tree = ast.parse(open(os.path.join(repo, "src", "pyrtma", "parser.py")).read())
+    except (OSError, SyntaxError) as ex:
+        res["crashes"].append(f"parser.py: {ex}")
+        return res
+    cls = next((n for n in tree.body if isinstance(n, ast.ClassDef) and n.name == "Parser"), None)
+    fd = next((n for n in (cls.body if cls else []) if isinstance(n, ast.FunctionDef) and n.name == "add_fields"), None)
+    if fd is None:
+        res["undecided"].append(f"{name}: Parser.add_fields not found")
+        return res
+    param = fd.args.args[1].arg if len(fd.args.args) > 1 else None
+
+    def is_call(v):
+        return isinstance(v, ast.Call) and ast.unparse(v.func) == "self.validate_msg_def" and len(v.args) == 1 and isinstance(v.args[0], ast.Name) and v.args[0].id == param
+    fall, ret = _exits_without(fd.body, is_call)
+    if not fall and not ret:
+        res["discharged"] = 1
+        res["discharged_names"].append(name)
+        res["by_backend"]["dataflow"] = 1
+        res["samples"].append(dict(obligation=name, goal=f"every normal exit of add_fields is preceded by self.validate_msg_def({param})", backend="dataflow"))
+    else:
+        info = dict(kind="ensures", status="refuted", reason="path analysis", candidates=[],
+                    text=f"add_fields can return without calling self.validate_msg_def({param}): a definition filled on that path keeps the default alignment (8) and is never checked or padded")
+        import subprocess
+        try:
+            p = subprocess.run(["/venv/bin/python", "-c", LAYOUT_REPLAY, repo], capture_output=True, text=True, timeout=120)
+            lines = [l for l in p.stdout.splitlines() if l.startswith("C11-REPLAY-VIOLATION")]
+            if lines:
+                info.update(reproduced=True, replay_how="field-list reuse of a two-int16 struct inside a message, auto_pad off", verifier_output=info["text"])
+                info["text"] += "\nreplayed on the real parser: " + lines[0]
+        except Exception:
+            pass
+        res["open"][name] = info
+    res["seconds"] = round(time.time() - t0, 2)
+    return res
